@@ -145,3 +145,85 @@ Arguments assemble {I} sl. Arguments get_indexes {C I} parse fs x keys sched. Ar
 Arguments GMissing {I}. Arguments GGot {I} r. Arguments GLost {I}.
 Arguments IWrite {C} p mt c. Arguments IGet {C} k.
 Arguments ic_empty {I}.
+
+(* ---- the REMOTE branch of indexCache.get ----------------------------------------
+   HEAD, then: no ETag in the answer - fetch and parse, nothing is stored ("If
+   there's no etag, we can't cache it"; a Last-Modified header is not looked at);
+   an ETag e - the result is stored once under cacheURL@e (sync.Once per key) and
+   handed to every later request with that key; when a new ETag arrives for a
+   cacheURL the entry of the previous one is forgotten (urlToEtag).  A missing
+   index is a 404: an error.  [E] = ETags. *)
+Section Remote.
+  Variable C : Type.
+  Variable I : Type.
+  Variable E : Type.
+  Variable E_eqb : E -> E -> bool.
+  Variable parse : ekey -> C -> option I.
+
+  (* what the server holds: path -> (the ETag it sends, if any; bytes) *)
+  Definition rfiles := list (nat * (option E * C)).
+  Fixpoint rfget (fs : rfiles) (p : nat) : option (option E * C) :=
+    match fs with
+    | [] => None
+    | (p', f) :: t => if Nat.eqb p p' then Some f else rfget t p
+    end.
+  Definition rpublish (fs : rfiles) (p : nat) (e : option E) (c : C) : rfiles := (p, (e, c)) :: fs.
+
+  (* indexes (cacheURL@etag -> result), urlToEtag *)
+  Record remote_cache := { rc_idx : list (ekey * E * option I); rc_cur : list (ekey * E) }.
+  Definition rc_empty : remote_cache := {| rc_idx := []; rc_cur := [] |}.
+
+  Fixpoint rlookup (k : ekey) (e : E) (m : list (ekey * E * option I)) : option (option I) :=
+    match m with
+    | [] => None
+    | (k', e', r) :: t => if ekey_eqb k k' && E_eqb e e' then Some r else rlookup k e t
+    end.
+  Definition rforget (k : ekey) (e : E) (m : list (ekey * E * option I)) : list (ekey * E * option I) :=
+    List.filter (fun x => negb (ekey_eqb k (fst (fst x)) && E_eqb e (snd (fst x)))) m.
+
+  Definition rc_get (fs : rfiles) (x : remote_cache) (k : ekey) : remote_cache * gres I :=
+    match rfget fs (ek_path k) with
+    | None => (x, GGot None)
+    | Some (None, c) => (x, GGot (parse k c))
+    | Some (Some e, c) =>
+        match rlookup k e (rc_idx x) with
+        | Some r => (x, GGot r)
+        | None =>
+            let idx := match klookup k (rc_cur x) with Some prev => rforget k prev (rc_idx x) | None => rc_idx x end in
+            let r := parse k c in
+            ({| rc_idx := (k, e, r) :: idx; rc_cur := kset k e (rc_cur x) |}, GGot r)
+        end
+    end.
+
+  Definition rcurrent (fs : rfiles) (k : ekey) : gres I :=
+    match rfget fs (ek_path k) with None => GGot None | Some (_, c) => GGot (parse k c) end.
+
+  Inductive rev := RPublish (p : nat) (e : option E) (c : C) | RGet (k : ekey).
+  Fixpoint rc_run (fs : rfiles) (x : remote_cache) (evs : list rev) : list (gres I) :=
+    match evs with
+    | [] => []
+    | RPublish p e c :: t => rc_run (rpublish fs p e c) x t
+    | RGet k :: t => let (x', r) := rc_get fs x k in r :: rc_run fs x' t
+    end.
+  Fixpoint rfresh_run (fs : rfiles) (evs : list rev) : list (gres I) :=
+    match evs with
+    | [] => []
+    | RPublish p e c :: t => rfresh_run (rpublish fs p e c) t
+    | RGet k :: t => rcurrent fs k :: rfresh_run fs t
+    end.
+
+  (* the ETag names the bytes: whatever is published at path p under ETag e is [content_of p e] *)
+  Fixpoint etags_name_bytes (content_of : nat -> E -> C) (evs : list rev) : Prop :=
+    match evs with
+    | [] => True
+    | RPublish p (Some e) c :: t => c = content_of p e /\ etags_name_bytes content_of t
+    | _ :: t => etags_name_bytes content_of t
+    end.
+End Remote.
+
+Arguments rfget {C E} fs p. Arguments rpublish {C E} fs p e c.
+Arguments rc_idx {I E} r. Arguments rc_cur {I E} r. Arguments rc_empty {I E}.
+Arguments rc_get {C I E} E_eqb parse fs x k. Arguments rcurrent {C I E} parse fs k.
+Arguments RPublish {C E} p e c. Arguments RGet {C E} k.
+Arguments rc_run {C I E} E_eqb parse fs x evs. Arguments rfresh_run {C I E} parse fs evs.
+Arguments etags_name_bytes {C E} content_of evs.
